@@ -97,7 +97,8 @@ def invalidParamsWith (d : MaybeSet Json) : RpcError := ⟨-32602, "Invalid para
 def internalError : RpcError := ⟨-32603, "Internal error", .unset, "InternalError"⟩
 def serverError : RpcError := ⟨-32000, "Server error", .unset, "ServerError"⟩
 
-/-- library-generated free text, compared only as "is a string" -/
+/-- library-generated free text (exception messages copied into `data`, "method ... not found", "batch too large"):
+compared only as "is a string", so that rewording a message is not mistaken for a change of behaviour -/
 def freeText : Json := .str "<text>"
 
 abbrev Registry := List (String × MethodDef)
@@ -118,7 +119,7 @@ def runBody (m : MethodDef) (recv : Json) : MethodResult × List Event :=
 /-- dispatcher.py:500-523 `_handle_rpc_method`. -/
 def handleRpcMethod (reg : Registry) (name : String) (params : Params) : MethodResult × List Event :=
   match reg.get name with
-  | none => (.rpcError (methodNotFoundWith (.set (.str s!"method '{name}' not found"))), [])
+  | none => (.rpcError (methodNotFoundWith (.set freeText)), [])
   | some m =>
     if m.view && m.initRaises then (.crashed, [])
     else
@@ -294,7 +295,7 @@ def dispatch (cfg : Config) (lr : LoadResult) (ctx : String) : DispatchResult ×
       | .raised _ => (replySingle ⟨none, .unset, .set (invalidRequestWith (.set freeText))⟩, [])
       | .ok batch =>
         if tooLarge cfg.maxBatchSize batch.requests.length then
-          (replySingle ⟨none, .unset, .set (invalidRequestWith (.set (.str "batch too large")))⟩, [])
+          (replySingle ⟨none, .unset, .set (invalidRequestWith (.set freeText))⟩, [])
         else
           let (results, ev) := runBatch cfg.handler ctx batch.requests
           (assembleBatch (keepSet results), ev)
